@@ -103,7 +103,7 @@ func profiles(prop string) []hist.Profile {
 		return []hist.Profile{
 			{Name: "prune", Ops: 140, Topics: 3, Subs: 4, POrdered: 0.4, PFilter: 0.3, PDL: 0.5, PRetry: 0.6, MaxAttempt: []int32{1, 2, 3},
 				Retentions: []time.Duration{0, 10 * min, 20 * sec}, Keys: []string{"", "k1", "k2"},
-				W: weights(map[string]int{"job": 40, "expire-job": 3, "jump-long": 3, "delete-sub": 3, "create-sub": 4, "delete-topic": 2, "create-topic": 2})},
+				W: weights(map[string]int{"job": 40, "expire-job": 3, "jump-long": 3, "delete-sub": 3, "create-sub": 4, "delete-topic": 2, "create-topic": 2, "seek-time": 9, "jump": 12})},
 		}
 	}
 	return nil
